@@ -269,4 +269,182 @@ theorem add_agree (args : List Val) (s : St) : Agree ((addB args).run.run s).1 (
     | func _ => right; cases rest <;> rfl
     | builtin _ => right; cases rest <;> rfl
     | «opaque» _ => right; cases rest <;> rfl
+
+/-! ## round 6: `concat` and `raise` -/
+
+/-- reading a backing array does not change the state (run level) -/
+theorem getBacking_bind_run {α : Type} (r : Nat) (f : List Val → M α) (s : St) :
+    (getBacking r >>= f).run.run s = (f (s.lists.getD r [])).run.run s := rfl
+
+/-- `append`: a list value, or the model leaves itself (capacity beyond the modelled size classes) -/
+theorem appendVals_cases (r len : Nat) (vs : List Val) (s : St) :
+    (∃ r' l' s', (appendVals r len vs).run.run s = (.ok (Val.list r' l'), s')) ∨
+    (∃ w s', (appendVals r len vs).run.run s = (.error (Sig.unsupported w), s')) := by
+  unfold appendVals
+  by_cases hv : vs.isEmpty = true
+  · left; simp only [hv, if_true]; exact ⟨r, len, s, rfl⟩
+  · simp only [hv, Bool.false_eq_true, if_false]
+    rw [getBacking_bind_run]
+    by_cases hle : len + vs.length ≤ (s.lists.getD r []).length
+    · left; simp only [hle, if_true]; exact ⟨_, _, _, rfl⟩
+    · simp only [hle, if_false]
+      cases hgc : growCap (s.lists.getD r []).length (len + vs.length) with
+      | none => right; exact ⟨_, _, rfl⟩
+      | some c => left; exact ⟨_, _, _, rfl⟩
+
+/-- is this evaluator value a list? -/
+def isListV : Val → Bool
+  | .list _ _ => true
+  | _ => false
+
+theorem getList_bind_run {α : Type} (r l : Nat) (f : List Val → M α) (s : St) :
+    (getList r l >>= f).run.run s = (f ((s.lists.getD r []).take l)).run.run s := rfl
+
+/-- the loop of `concat`: a value if every argument is a list, an error value at the first one that is not —
+    unless an append leaves the model first -/
+theorem concatGo_cl : ∀ (l : List Val) (cr cl : Nat) (s : St),
+    clEv ((concatGo l (.list cr cl)).run.run s).1 = .outside ∨
+    clEv ((concatGo l (.list cr cl)).run.run s).1 = (if l.all isListV then Cl.value else Cl.error)
+  | [], cr, cl, s => by right; rfl
+  | a :: rest, cr, cl, s => by
+    cases a with
+    | list r l' =>
+      unfold concatGo
+      simp only []
+      rw [getList_bind_run]
+      rcases appendVals_cases cr cl ((s.lists.getD r []).take l') s with ⟨r2, l2, s2, h2⟩ | ⟨w, s2, h2⟩
+      · rw [bind_run_ok _ _ s s2 _ h2]
+        have ih := concatGo_cl rest r2 l2 s2
+        simpa [isListV] using ih
+      · left
+        rw [bind_run_err _ _ s s2 _ h2]
+        rfl
+    | null => right; rfl
+    | bool _ => right; rfl
+    | num _ => right; rfl
+    | str _ => right; rfl
+    | map _ => right; rfl
+    | func _ => right; rfl
+    | builtin _ => right; rfl
+    | «opaque» _ => right; rfl
+
+/-- the Prims side: the list assertions succeed exactly when every argument is a list -/
+theorem mapM_assertList (s : St) : ∀ (l : List Val),
+    (∃ xs, (l.map (absV s)).mapM assertListParam = .ok xs ∧ l.all isListV = true) ∨
+    (∃ m, (l.map (absV s)).mapM assertListParam = .error (.err m) ∧ l.all isListV = false)
+  | [] => by left; exact ⟨[], rfl, rfl⟩
+  | a :: rest => by
+    rcases mapM_assertList s rest with ⟨xs, hx, ha⟩ | ⟨m, hm, ha⟩
+    · cases a with
+      | list r l => left; exact ⟨List.replicate l PVal.null :: xs, by simp [List.mapM_cons, absV, assertListParam, goAssertOk, PVal.kind, hx, bind, Except.bind, pure, Except.pure], by simp [isListV, ha]⟩
+      | _ => right; exact ⟨"Parameter should be a list", by simp [List.mapM_cons, absV, assertListParam, goAssertOk, PVal.kind, bind, Except.bind], by simp [isListV]⟩
+    · cases a with
+      | list r l => right; exact ⟨m, by simp [List.mapM_cons, absV, assertListParam, goAssertOk, PVal.kind, hm, bind, Except.bind], by simp [isListV, ha]⟩
+      | _ => right; exact ⟨"Parameter should be a list", by simp [List.mapM_cons, absV, assertListParam, goAssertOk, PVal.kind, bind, Except.bind], by simp [isListV]⟩
+
+/-- allocating a backing array pushes it and returns its index (run level) -/
+theorem newBacking_bind_run {α : Type} (b : List Val) (f : Nat → M α) (s : St) :
+    (newBacking b >>= f).run.run s = (f s.lists.size).run.run { s with lists := s.lists.push b } := rfl
+
+/-- **concat: the Prims transcription and the evaluator's `concatB` answer with the same class** on every argument
+    vector and heap, unless the evaluator model leaves itself (an append beyond the modelled size classes). -/
+theorem concat_agree (args : List Val) (s : St) :
+    Agree ((concatB args).run.run s).1 (concatFunc (args.map (absV s))) := by
+  unfold Agree concatB concatFunc
+  by_cases hlt : args.length < 2
+  · right
+    have h2 : ¬ (args.map (absV s)).length > 1 := by simp; omega
+    simp only [hlt, h2, if_true, if_false]
+    rfl
+  · have h2 : (args.map (absV s)).length > 1 := by simp; omega
+    simp only [hlt, h2, if_true, if_false]
+    rw [newBacking_bind_run]
+    rcases concatGo_cl args s.lists.size 0 { s with lists := s.lists.push [] } with ho | hv
+    · left; exact ho
+    · right
+      rw [hv]
+      rcases mapM_assertList s args with ⟨xs, hx, ha⟩ | ⟨m, hm, ha⟩
+      · simp only [hx, ha, if_true, bind, Except.bind]; rfl
+      · simp only [hm, ha, Bool.false_eq_true, if_false, bind, Except.bind]; rfl
+
+/-- the Prims transcription of `raise` answers with an error value on every argument vector -/
+theorem raiseSite_err : ∀ (args : List PVal), raiseSite args = .error (.err "raised")
+  | [] => rfl
+  | [_] => rfl
+  | [_, _] => rfl
+  | _ :: _ :: _ :: _ => by simp [raiseSite, goIndex, bind, Except.bind, pure, Except.pure]
+
+/-- the error type of `raise`: printed without touching the state, or the model leaves itself -/
+theorem tyOf_cases (a : Val) (s : St) :
+    (∃ ty, ((do let x ← sprint a; pure (bytesToString x)) : M String).run.run s = (.ok ty, s)) ∨
+    (∃ e, ((do let x ← sprint a; pure (bytesToString x)) : M String).run.run s = (.error e, s) ∧ OutS e) := by
+  rcases sprint_cases a s with ⟨t, ht⟩ | ⟨e, he, ho⟩
+  · left; exact ⟨bytesToString t, by rw [bind_run_ok _ _ s s t ht]; rfl⟩
+  · right; exact ⟨e, by rw [bind_run_err _ _ s s e he], ho⟩
+
+/-- the throw at the end of `raise` is an error value -/
+theorem raiseThrow_cl (node : Ecal.Parse.Node) (ty : String) (detail : List Nat) (data : Val) (s : St) :
+    clEv (((match node.tok with
+      | some t => throw (raiseSig ty detail data t.line t.col)
+      | none => throw (raiseSig ty detail data 0 0)) : M Val).run.run s).1 = Cl.error := by
+  cases node.tok <;> rfl
+
+/-- **raise: the Prims transcription and the evaluator's `raise` answer with the same class** (an error value) for
+    every argument vector, heap, fuel and call node, unless the evaluator model leaves itself (its printer does not
+    cover the error type or the detail). -/
+theorem raise_agree (f sc : Nat) (node : Ecal.Parse.Node) (args : List Val) (s : St) :
+    Agree ((runBuiltin (f+1) sc node "raise" args).run.run s).1 (raiseSite (args.map (absV s))) := by
+  unfold Agree
+  rw [raiseSite_err]
+  unfold runBuiltin
+  simp only []
+  match args with
+  | [] =>
+    right
+    simp only [pure_bind]
+    exact raiseThrow_cl node _ _ _ s
+  | [a] =>
+    rcases tyOf_cases a s with ⟨ty, hty⟩ | ⟨e, he, ho⟩
+    · right
+      rw [bind_run_ok _ _ s s ty hty]
+      simp only [pure_bind]
+      exact raiseThrow_cl node _ _ _ s
+    · left
+      rw [bind_run_err _ _ s s e he]
+      exact clEv_out e ho
+  | a :: d :: rest =>
+    rcases tyOf_cases a s with ⟨ty, hty⟩ | ⟨e, he, ho⟩
+    · rw [bind_run_ok _ _ s s ty hty]
+      have hd := sprint_cases d s
+      cases d with
+      | null =>
+        right
+        simp only [pure_bind]
+        exact raiseThrow_cl node _ _ _ s
+      | _ =>
+        simp only []
+        rcases hd with ⟨t, ht⟩ | ⟨e, he, ho⟩
+        · right
+          rw [bind_run_ok _ _ s s t ht]
+          exact raiseThrow_cl node _ _ _ s
+        · left
+          rw [bind_run_err _ _ s s e he]
+          exact clEv_out e ho
+    · left
+      rw [bind_run_err _ _ s s e he]
+      exact clEv_out e ho
+
+/-- non-vacuity of `concat_agree`: on two lists both sides are a value, on a list and a boolean both are an error
+    value (the evaluator side is inside the model in both cases) -/
+example : clEv ((concatB [.list 0 0, .list 0 0]).run.run {}).1 = .value := rfl
+example : clP (concatFunc ([Val.list 0 0, Val.list 0 0].map (absV {}))) = .value := rfl
+example : clEv ((concatB [.list 0 0, .bool true]).run.run {}).1 = .error := rfl
+example : clP (concatFunc ([Val.list 0 0, Val.bool true].map (absV {}))) = .error := rfl
+
+/-- non-vacuity of `raise_agree`: with a string as error type the evaluator side is inside the model and is an
+    error value -/
+example (node : Ecal.Parse.Node) :
+    clEv ((runBuiltin 1 0 node "raise" [.str [97]]).run.run {}).1 = .error := by
+  unfold runBuiltin; cases h : node.tok <;> simp only [h] <;> rfl
+
 end Ecal.Lemmas.C06PrimsTie
